@@ -158,14 +158,34 @@ func (h *harness) checkAsof() bool {
 				return
 			}
 		}
-		// forwards again
-		rt = h.db.NewReadTran()
-		rt.Asof(times[0]) // position on the first state
+		// forwards again: the transaction is still on the first state; every step must land on
+		// the next persisted state, and there is nothing after the last one
 		for i := 1; i < n; i++ {
-			if times[i] == times[0] && i == 1 {
-				// coincident first states: Asof(t) lands on the newest of them
+			var t int64
+			res := try(func() { t = rt.Asof(1) })
+			if res != "" || t != times[i] {
+				h.fail("C19/asof", "C19/asof/forward", "stepping forward (%d states persisted): the step from state %d (offset %d) to state %d (offset %d) returned time %d %s, expected %d (state times %v)", n, i-1, h.states[i-1].off, i, h.states[i].off, t, res, times[i], times)
+				ok = false
+				return
+			}
+			got, err := h.logicalAt(rt)
+			if err != nil {
+				h.fail("C19/asof", "C19/asof/forward", "stepping forward: reading state %d: %v", i, err)
+				ok = false
+				return
+			}
+			if k, d := h.matchPrefix(h.states[i], got); k < 0 {
+				h.fail("C19/asof", "C19/asof/forward", "stepping forward: state %d (offset %d) shows contents that are not the model after any admissible prefix of the history (operations %d..%d): %s", i, h.states[i].off, h.states[i].klo, h.states[i].khi, d)
+				ok = false
+				return
 			}
 		}
+		if res := try(func() { t = rt.Asof(1) }); res != "" || t != 0 {
+			h.fail("C19/asof", "C19/asof/forward", "stepping forward past the last persisted state returned %d %s", t, res)
+			ok = false
+			return
+		}
+		h.ri.Count("asof.forward-steps", int64(n-1))
 		// Asof(t) for chosen times
 		g := s.Tape.Stream("asof")
 		for q := 0; q < 6; q++ {
